@@ -515,6 +515,10 @@ func (n *node) check() error {
 	if e != nil {
 		return e
 	}
+	if n.Type() == NodeDeviation && len(n.ChildrenByType(NodeDeviate)) == 0 {
+		// The table cannot say "at least one deviate of any kind"
+		return fmt.Errorf("%s: missing required '%s' statement", ErrCard, NodeDeviate)
+	}
 	return nil
 }
 
